@@ -55,7 +55,14 @@ func allQueries(w *sim.World) []queryCall {
 		un = types.QueryGetUsedNonceRequest{SourceDomain: us[0].Domain, Nonce: us[0].Nonce}
 	}
 	pg := &query.PageRequest{Limit: 3, CountTotal: true}
-	return []queryCall{
+	var extra []queryCall
+	for _, k := range pks {
+		// a registry entry with a short remote token (genesis only), asked for in its 32-byte padded form
+		if p := m.Pairs[k]; len(p.Token) < 32 {
+			extra = append(extra, queryCall{"TokenPair", &types.QueryGetTokenPairRequest{RemoteDomain: p.Domain, RemoteToken: fmt.Sprintf("%x", sim.Pad32(p.Token))}, func() proto.Message { return &types.QueryGetTokenPairResponse{} }})
+		}
+	}
+	return append(extra, []queryCall{
 		{"Roles", &types.QueryRolesRequest{}, func() proto.Message { return &types.QueryRolesResponse{} }},
 		{"Attester", &types.QueryGetAttesterRequest{Attester: att}, func() proto.Message { return &types.QueryGetAttesterResponse{} }},
 		{"Attesters", &types.QueryAllAttestersRequest{Pagination: pg}, func() proto.Message { return &types.QueryAllAttestersResponse{} }},
@@ -75,7 +82,7 @@ func allQueries(w *sim.World) []queryCall {
 		{"BurnMessageVersion", &types.QueryBurnMessageVersionRequest{}, func() proto.Message { return &types.QueryBurnMessageVersionResponse{} }},
 		{"LocalMessageVersion", &types.QueryLocalMessageVersionRequest{}, func() proto.Message { return &types.QueryLocalMessageVersionResponse{} }},
 		{"LocalDomain", &types.QueryLocalDomainRequest{}, func() proto.Message { return &types.QueryLocalDomainResponse{} }},
-	}
+	}...)
 }
 
 // ---- C15: each transaction touches only the state it is documented to change -------------------------------
@@ -219,7 +226,9 @@ func c15required() []string {
 }
 
 var C15 = register(&HistProp{ID: "C15",
-	Genesis: func(t *rapid.T) *sim.GenSpec { return sim.DrawGenesis(t, sim.GenOpts{UsedInGen: true, BigBalances: true}) },
+	Genesis: func(t *rapid.T) *sim.GenSpec {
+		return sim.DrawGenesis(t, sim.GenOpts{UsedInGen: true, BigBalances: true, ShortToken: true, UpperPairGen: true})
+	},
 	Next: func(g *sim.G, i int) *sim.Op {
 		return Mix{Send: 3, Dep: 3, Recv: 3, Replay: 1, Replace: 2, RepDep: 2, Admin: 10, Ledger: 1, Multi: 1,
 			DepValid: 75, RecvBroken: 35, ReplaceValid: 70, AdminHolder: 75, FaultPct: 4, Rollback: 4}.next(g)
